@@ -65,6 +65,7 @@ type vhC16 struct {
 	transfer   transaction.Transaction
 	awaiting   bool // reference state: the contract is awaiting the receiver
 	challengeR []byte
+	captured   *protobufcompiled.SignedHash // a genuine Waiting request of the receiver, seen by an eavesdropper
 }
 
 func vhSignedTrx(w *wallet.Wallet, rcv string, data []byte, n int64) transaction.Transaction {
@@ -110,7 +111,7 @@ func (c *vhC16) vhCall(step string) {
 	ctx := context.Background()
 	h := c.contract.Hash
 	sealedBefore := c.led.sealed[h]
-	switch verifrt.Choose(step, 12) {
+	switch verifrt.Choose(step, 15) {
 	case 0: // issuer proposes the contract
 		_, err := c.s.Propose(ctx, vhProto(c.contract))
 		if err == nil {
@@ -145,6 +146,21 @@ func (c *vhC16) vhCall(step string) {
 		_, err := c.s.Confirm(ctx, vhProto(t))
 		verifrt.Assert(err != nil && c.led.sealed[h] == sealedBefore, "C16/confirm/wrong-receiver-key-refused")
 		c.vhStillAwaiting("C16/confirm/refused-confirmation-keeps-it-awaiting")
+	case 14: // the issuer "confirms" its own contract by attaching a copy of its own signature
+		t := c.contract
+		t.ReceiverSignature = append([]byte{}, t.IssuerSignature...)
+		_, err := c.s.Confirm(ctx, vhProto(t))
+		verifrt.Assert(err != nil && c.led.sealed[h] == sealedBefore, "C16/confirm/copy-of-issuer-signature-refused")
+		c.vhStillAwaiting("C16/confirm/copied-signature-keeps-it-awaiting")
+	case 12: // a confirmation carrying ANY 64 bytes other than the receiver's genuine countersignature
+		// (a copy of the issuer's signature, another wallet's signature, garbage ...)
+		t := c.contract
+		_, genuine := c.r.Sign(t.GetMessage())
+		t.ReceiverSignature = verifrt.NondetBytes("forged-countersignature", 64, 64)
+		verifrt.Assume(string(t.ReceiverSignature) != string(genuine))
+		_, err := c.s.Confirm(ctx, vhProto(t))
+		verifrt.Assert(err != nil && c.led.sealed[h] == sealedBefore, "C16/confirm/wrong-receiver-key-refused")
+		c.vhStillAwaiting("C16/confirm/refused-confirmation-keeps-it-awaiting")
 	case 5: // the receiver rejects (signs the transaction hash)
 		_, err := c.s.Reject(ctx, vhSignedHashBy(&c.r, c.r.Address(), h[:]))
 		if c.awaiting {
@@ -165,7 +181,9 @@ func (c *vhC16) vhCall(step string) {
 		blob, err := c.s.Data(ctx, &protobufcompiled.Address{Public: c.r.Address()})
 		verifrt.Assert(err == nil, "C16/data/challenge-issued")
 		c.challengeR = blob.Blob
-		out, err := c.s.Waiting(ctx, vhSignedHashBy(&c.r, c.r.Address(), blob.Blob))
+		req := vhSignedHashBy(&c.r, c.r.Address(), blob.Blob)
+		c.captured = req
+		out, err := c.s.Waiting(ctx, req)
 		if c.awaiting {
 			verifrt.Assert(err == nil && len(out.Array) == 1, "C16/waiting/owner-sees-the-awaiting-contract")
 		}
@@ -175,6 +193,17 @@ func (c *vhC16) vhCall(step string) {
 		}
 		_, err := c.s.Waiting(ctx, vhSignedHashBy(&c.x, c.r.Address(), c.challengeR))
 		verifrt.Assert(err != nil, "C16/waiting/challenge-signed-by-another-key-refused")
+	case 13: // a captured genuine request replayed after the server issued a new challenge for that address
+		if c.captured == nil {
+			return
+		}
+		again, err := c.s.Data(ctx, &protobufcompiled.Address{Public: c.r.Address()})
+		verifrt.Assert(err == nil, "C16/data/challenge-reissued")
+		_ = again // (the model's random source never repeats a 128-byte string)
+		_, err = c.s.Waiting(ctx, c.captured)
+		verifrt.Assert(err != nil, "C16/waiting/stale-challenge-refused-after-reissue")
+		_, err = c.s.TransactionsInDAG(ctx, c.captured)
+		verifrt.Assert(err != nil, "C16/history/stale-challenge-refused-after-reissue")
 	case 10: // the stranger presents a challenge the server never issued for that address
 		fake := verifrt.NondetBytes("fake-challenge", 128, 128)
 		_, err := c.s.Waiting(ctx, vhSignedHashBy(&c.x, c.x.Address(), fake))
